@@ -7,8 +7,16 @@ type EventFn[T any] func(data T)
 type Unsubscribe func()
 
 type subscription[T any] struct {
-	id uint64
-	fn EventFn[T]
+	id    uint64
+	fn    EventFn[T]
+	order *deliveryOrder
+}
+
+// Serialises the notifications of one subscriber and remembers the newest event it has seen,
+// so that the notifications of events fired in quick succession cannot be applied out of order.
+type deliveryOrder struct {
+	mu        sync.Mutex
+	delivered uint64
 }
 
 // Guards the subscriber lists of all events. It is package-level rather than a field so that
@@ -18,6 +26,7 @@ var subscribersMu sync.RWMutex
 type Event[T any] struct {
 	subscribers []subscription[T]
 	nextID      uint64
+	fired       uint64 // Sequence number of the most recent Fire
 }
 
 func New[T any]() *Event[T] {
@@ -33,7 +42,7 @@ func (e *Event[T]) Subscribe(fn EventFn[T]) Unsubscribe {
 
 	e.nextID++
 	id := e.nextID
-	e.subscribers = append(e.subscribers, subscription[T]{id: id, fn: fn})
+	e.subscribers = append(e.subscribers, subscription[T]{id: id, fn: fn, order: &deliveryOrder{}})
 	return func() {
 		subscribersMu.Lock()
 		defer subscribersMu.Unlock()
@@ -50,12 +59,26 @@ func (e *Event[T]) Subscribe(fn EventFn[T]) Unsubscribe {
 // Fires the event, notifying all subscribers with the provided data.
 // NOTE: The subscribers are notified in separate goroutines,
 // so be aware of potential race conditions.
+// A subscriber never receives an event after it has received a more recently fired one.
 func (e *Event[T]) Fire(data T) {
-	subscribersMu.RLock()
+	subscribersMu.Lock()
+	e.fired++
+	seq := e.fired
 	subscribers := e.subscribers // Removal never modifies a published backing array in place
-	subscribersMu.RUnlock()
+	subscribersMu.Unlock()
 
 	for _, subscriber := range subscribers {
-		go subscriber.fn(data)
+		go subscriber.deliver(seq, data)
 	}
+}
+
+func (s subscription[T]) deliver(seq uint64, data T) {
+	s.order.mu.Lock()
+	defer s.order.mu.Unlock()
+
+	if seq < s.order.delivered {
+		return // A newer event has already been delivered to this subscriber
+	}
+	s.order.delivered = seq
+	s.fn(data)
 }
